@@ -254,5 +254,5 @@ ASSUMPTIONS = ["journalctl (systemd 252) is the reference reader for entry order
 
 def main(tier):
     n = 300 if tier == "quick" else 20000
-    cap = 400 if tier == "quick" else 7200
+    cap = 400 if tier == "quick" else 1500
     return engine.run_check(PROP, "c09", tier, n, cap, "exploration", RULE, ASSUMPTIONS)
